@@ -200,7 +200,7 @@ def handle : List String → Option (List String)
         | 3 => walk rest ps raws off failed (Ev.cpTick :: acc)
         | _ => walk rest ps raws off failed (Ev.done :: acc)
     let pre : List Ev := if pc.startDbId > 0 then [Ev.item (selectItem pc.startDbId start)] else []
-    let evs := pre ++ walk all {} rawArgs start false []
+    let evs := pre ++ walk all { lastSent := start } rawArgs start false []
     let (_, batches) := run sc initS evs
     let log := batches.flatten
     let lines := renderLog tag cp rid ver log
